@@ -13,6 +13,7 @@ From Coq Require Import List Arith.
 Import ListNotations.
 From BC Require Import Conc.Lin Conc.StoreLTS Conc.StoreSafe Conc.StoreLin Conc.StoreLive.
 From BC Require Conc.MergeLTS Conc.MergeSafe.
+From Coq Require Import Lia.
 
 (* 1. No schedule makes any thread panic: whatever the interleaving and however the bytes of a record
       trickle into the file, the slice a get takes of its mapping is in range. *)
@@ -79,3 +80,19 @@ Print Assumptions C04_unguarded_reader_refuted.
 Example C04_example :
   exists s, lrun rule_fixed (linit 1) d3_schedule = Some s /\ thr s 1 = PGRead 150 (Some 20).
 Proof. exact fixed_rule_same_schedule. Qed.
+
+(* Non-vacuity of 6: a quiescent state satisfies the invariant; with the guard kept, the merge waits
+   for the reader, then re-points and unlinks, and a later get reads the copy. *)
+Example C04_merge_example :
+  MergeSafe.J 1 MergeSafe.demo_state /\
+  MergeLTS.mrun 1 true MergeSafe.demo_state [MergeLTS.RLookup 0 1; MergeLTS.MStart [0] [1] 5; MergeLTS.MCopy] = None /\
+  exists s, MergeLTS.mrun 1 true MergeSafe.demo_state
+              [MergeLTS.RLookup 0 1; MergeLTS.MStart [0] [1] 5; MergeLTS.RRead 0; MergeLTS.MCopy; MergeLTS.MCopyEnd; MergeLTS.MUnlink; MergeLTS.MEnd;
+               MergeLTS.RReturn 0; MergeLTS.RLookup 0 1; MergeLTS.RRead 0] = Some s /\
+            MergeLTS.readers s 0 = MergeLTS.RDone 1 (Some 7) (Some 7) /\ MergeLTS.files s 0 = None.
+Proof.
+  split.
+  { apply MergeSafe.J_init; [|reflexivity|reflexivity]. intros k loc H. unfold MergeSafe.demo_state in H. cbn [MergeLTS.idx] in H.
+    destruct (Nat.eqb k 1); [|discriminate]. inversion H; subst. exists [MergeLTS.mkMRec 1 7]. cbn. split; [reflexivity|lia]. }
+  exact MergeSafe.guarded_merge_waits.
+Qed.
